@@ -78,6 +78,17 @@ PairsOf(k, fl) ==
         : P \in {{a, b} : a \in O, b \in O} \ {{a} : a \in O}}
 Pairs == UNION {PairsOf(kf[1], kf[2]) : kf \in {x \in KindFlavours : x[1] \in PairKinds}}
 
+\* ---- combinations: strided subsets of the optional keywords of a kind with the value classes in rotation
+\* (stride 1: every optional keyword at once); deterministic, a few per kind and flavour
+CombosOf(k, fl) ==
+  LET O  == {kw \in Optional(k, fl) : VTypeOf(k, kw) # "ref"}
+      ks == SetToSeq(O)
+      Cls(i, t) == LET cs == SetToSeq(NFClasses(VTypeOf(k, ks[i]), FALSE)) IN cs[((i + t) % Len(cs)) + 1]
+      Sub(s, t) == {i \in 1..Len(ks) : i % s = t}
+  IN  {Case("combo", <<>>, k, fl, SetToSeq({M(k, ks[i], Cls(i, st[1] + st[2])) : i \in Sub(st[1], st[2])}))
+        : st \in {x \in (1..4) \X (0..3) : x[2] < x[1] /\ Cardinality(Sub(x[1], x[2])) >= 2}}
+Combos == UNION {CombosOf(kf[1], kf[2]) : kf \in KindFlavours}
+
 \* extension names in lower and upper case (both are extensions: the prefix test folds case);
 \* unknown schema keywords, among them names starting with "$" (draft-06 style)
 ExtNames == {"x-ext", "x-", "x-camelCase"}
@@ -200,6 +211,7 @@ Export == (IF "odd" \in Families THEN OddCases \cup ExtCaseCases \cup CaseFoldCa
           (IF "payload" \in Families THEN PayloadCases ELSE {}) \cup
           (IF "single" \in Families THEN Singles ELSE {})
           \cup (IF "pair" \in Families THEN Pairs ELSE {})
+          \cup (IF "combo" \in Families THEN Combos ELSE {})
           \cup (IF "ext" \in Families THEN Exts ELSE {})
           \cup (IF "chain" \in Families THEN Chains ELSE {})
           \cup (IF "wild" \in Families THEN Wild ELSE {})
